@@ -181,7 +181,9 @@ def snapshot(x, depth=0):
         return ('dict', tuple((k, snapshot(v, depth + 1)) for k, v in x.items()))
     d = getattr(x, 'data', None)
     if isinstance(d, list) and type(x).__module__.startswith('spatialmath'):
-        return ('obj', type(x).__name__, tuple(snapshot(v, depth + 1) for v in d))
+        # (other instance attributes are part of the object too: a non-mutating call must not leave anything behind in it)
+        extra = tuple((k, snapshot(v, depth + 1)) for k, v in sorted(vars(x).items()) if k != 'data') if hasattr(x, '__dict__') else ()
+        return ('obj', type(x).__name__, tuple(snapshot(v, depth + 1) for v in d), extra)
     if type(x).__module__.startswith('spatialmath') and hasattr(x, '__dict__'):
         return ('obj2', type(x).__name__,
                 tuple((k, snapshot(v, depth + 1)) for k, v in sorted(vars(x).items())))
